@@ -65,7 +65,7 @@ func genC10(rt *rapid.T, st *Stats) *Case {
 		n = rapid.IntRange(20, hi).Draw(rt, "n")
 		ies = genConnN(rt, n, rapid.IntRange(0, n).Draw(rt, "extra"))
 	}
-	c := &Case{Edges: toEdges(ies, nid)}
+	c := &Case{Edges: toEdges(ies, nameScheme(rt))}
 	genOptions(rt, c, NodeIDs(c.Edges), OptSpec{CBs: allCB, Lays: []int{LayNS}, Poss: []int{PosVAlign}, Rts: []int{RtNoop},
 		Thorough: true, Virt: false, Sizes: 1, NSZero: true, LSZero: false, DefaultsOK: true})
 	return c
@@ -307,28 +307,7 @@ func genC12(rt *rapid.T, st *Stats) *Case {
 	case "xwide":
 		// two or three layers of 65..80 nodes: positions >= 64 inside a layer (bit-mask style thresholds; seeded/r2-m12)
 		// (kept just above the threshold and sparse: 80-wide layers with 1.5 edges per node took 37 s in the ordering phase)
-		L := rapid.IntRange(2, 3).Draw(rt, "L")
-		W := rapid.IntRange(65, 72).Draw(rt, "W")
-		n = L*W + 1
-		root := L * W
-		for k := 0; k < W; k++ { // a root above the first wide layer keeps everything in one component
-			ies = append(ies, iedge{root, k})
-		}
-		for l := 0; l+1 < L; l++ {
-			match := rapid.Permutation(iota_(W)).Draw(rt, "matching") // every node of both layers gets an edge
-			for k := 0; k < W; k++ {
-				ies = append(ies, iedge{l*W + k, (l+1)*W + match[k]})
-			}
-			// enough extra edges that some crossings are unavoidable, also among the high positions
-			for k := rapid.IntRange(W/4, W/2).Draw(rt, "more"); k > 0; k-- {
-				ies = append(ies, iedge{l*W + pick(rt, "xu", W), (l+1)*W + pick(rt, "xl", W)})
-			}
-		}
-		perm := rapid.Permutation(iota_(n)).Draw(rt, "relabel")
-		for i := range ies {
-			ies[i] = iedge{perm[ies[i][0]], perm[ies[i][1]]}
-		}
-		ies = rapid.Permutation(ies).Draw(rt, "edge_order")
+		n, ies = genRootedWide(rt, rapid.IntRange(2, 3).Draw(rt, "L"), rapid.IntRange(65, 72).Draw(rt, "W"))
 	case "deep":
 		// kept narrow: a 70 x 3 ladder costs about a second, 80 x 5 with 11 edges per gap ran for minutes in the ordering phase
 		L := rapid.IntRange(65, 80).Draw(rt, "L")
@@ -336,7 +315,7 @@ func genC12(rt *rapid.T, st *Stats) *Case {
 		n, ies = genLayered(rt, L, W, rapid.IntRange(W, W+2).Draw(rt, "per_gap"), rapid.IntRange(0, 3).Draw(rt, "long"))
 	}
 	ies = dedupe(ies)
-	c := &Case{Edges: toEdges(ies, nid)}
+	c := &Case{Edges: toEdges(ies, nameScheme(rt))}
 	poss := []int{PosSink, PosVAlign, PosPackRight}
 	if regime == "small" && n <= 12 && len(ies) <= 20 {
 		poss = sizeAwarePos
@@ -351,6 +330,32 @@ func genC12(rt *rapid.T, st *Stats) *Case {
 	genOptions(rt, c, NodeIDs(c.Edges), OptSpec{CBs: allCB, Lays: lays, Poss: poss, Rts: []int{RtPolyline},
 		Thorough: false, Virt: true, Sizes: 1, IntForNS: true, NSZero: false, LSZero: false, DefaultsOK: true})
 	return c
+}
+
+// genRootedWide: a root above L layers of W nodes; consecutive layers are joined by a perfect matching (every node of
+// both layers gets an edge) plus W/4..W/2 random extra edges, so that some crossings are unavoidable, also among the
+// high positions. One component, every wide layer really holds W nodes. Node numbering and edge order are drawn.
+func genRootedWide(rt *rapid.T, L, W int) (int, []iedge) {
+	n := L*W + 1
+	root := L * W
+	var ies []iedge
+	for k := 0; k < W; k++ {
+		ies = append(ies, iedge{root, k})
+	}
+	for l := 0; l+1 < L; l++ {
+		match := rapid.Permutation(iota_(W)).Draw(rt, "matching")
+		for k := 0; k < W; k++ {
+			ies = append(ies, iedge{l*W + k, (l+1)*W + match[k]})
+		}
+		for k := rapid.IntRange(W/4, W/2).Draw(rt, "more"); k > 0; k-- {
+			ies = append(ies, iedge{l*W + pick(rt, "xu", W), (l+1)*W + pick(rt, "xl", W)})
+		}
+	}
+	perm := rapid.Permutation(iota_(n)).Draw(rt, "relabel")
+	for i := range ies {
+		ies[i] = iedge{perm[ies[i][0]], perm[ies[i][1]]}
+	}
+	return n, rapid.Permutation(ies).Draw(rt, "edge_order")
 }
 
 // genLayered: L layers of W nodes; perGap random edges between each pair of consecutive layers (so every layer stays
@@ -481,8 +486,15 @@ func genC13(rt *rapid.T, st *Stats) *TreeCase {
 	}
 	in := rapid.Bool().Draw(rt, "intree")
 	var es []iedge
-	// parent choice: uniform, or biased to recent nodes (deep trees), or to node 0 (bushy trees)
-	shape := pick(rt, "shape", 3)
+	// parent choice: uniform, or biased to recent nodes (deep trees), or to node 0 (bushy trees), or wide-and-shallow:
+	// a root with w children that share the remaining nodes as grandchildren (two adjacent wide layers, 45..70 nodes in
+	// quick: size thresholds on a layer PAIR - seeded/r2-m13 switches algorithm above 512 matrix cells - need that)
+	shape := pick(rt, "shape", 4)
+	w1 := 0
+	if shape == 3 {
+		n = rapid.IntRange(45, hi+30).Draw(rt, "n_wide")
+		w1 = rapid.IntRange(n/3, n/2).Draw(rt, "w1")
+	}
 	for i := 1; i < n; i++ {
 		var p int
 		switch shape {
@@ -490,8 +502,16 @@ func genC13(rt *rapid.T, st *Stats) *TreeCase {
 			p = pick(rt, "parent", i)
 		case 1:
 			p = i - 1 - pick(rt, "back", min(i, 3))
-		default:
+		case 2:
 			p = pick(rt, "parent_bushy", min(i, 4))
+		default:
+			if i <= w1 {
+				p = 0
+			} else if chance(rt, "tail", 1, 12) {
+				p = i - 1 // a thin tail below the wide layers
+			} else {
+				p = 1 + pick(rt, "parent_wide", w1)
+			}
 		}
 		if in {
 			es = append(es, iedge{i, p})
@@ -506,7 +526,7 @@ func genC13(rt *rapid.T, st *Stats) *TreeCase {
 	if len(es) > 1 {
 		es = rapid.Permutation(es).Draw(rt, "edge_order")
 	}
-	tc := &TreeCase{Opt: &Case{Edges: toEdges(es, nid)}}
+	tc := &TreeCase{Opt: &Case{Edges: toEdges(es, nameScheme(rt))}}
 	poss := []int{PosSink, PosVAlign, PosPackRight}
 	if n <= 10 {
 		poss = sizeAwarePos
@@ -784,7 +804,7 @@ func genC14(rt *rapid.T, st *Stats) *Case {
 		n, ies, _ = genGraph(rt, GraphSpec{MaxN: maxN, MaxM: maxM, Families: []int{FamMulti, FamMulti, FamMotif, FamConn, FamSimple}, Union: true, SelfLoops: true, Parallel: true})
 	}
 	_ = n
-	c := &Case{Edges: toEdges(ies, nid)}
+	c := &Case{Edges: toEdges(ies, nameScheme(rt))}
 	genOptions(rt, c, NodeIDs(c.Edges), OptSpec{CBs: []int{CBDepthFirst, CBDepthFirst, CBGreedy, CBGreedyRandom}, Lays: allLay, Poss: []int{PosVAlign}, Rts: []int{RtNoop},
 		Thorough: false, Virt: false, Sizes: 0, NSZero: true, LSZero: true, DefaultsOK: true})
 	return c
